@@ -262,11 +262,17 @@ Definition bond_in_ring (sssr : list ring) (n m : Z) : bool :=
       end
   end.
 
+(* for m, bond in m_bond.items():
+       if bond == 8: bond._in_ring = False; continue        # ring perception ignores special bonds
+       bond._in_ring = anr and ... and not anr.isdisjoint(amr)                                          *)
+Definition bond_label (sssr : list ring) (n : Z) (mb : Z * bond) : bool :=
+  if b_ord (snd mb) =? 8 then false else bond_in_ring sssr n (fst mb).
+
 (* the marks calc_labels writes, in its iteration order: per atom (n, in_ring, ring_sizes) and per directed
    bond (n, m, in_ring) *)
 Definition ring_labels (g : mol) (sssr : list ring) : list (Z * bool * list Z) * list (Z * Z * bool) :=
   (map (fun nl => (fst nl, atom_in_ring sssr (fst nl), atom_ring_sizes sssr (fst nl))) (m_adj g),
-   flat_map (fun nl => map (fun mb => (fst nl, fst mb, bond_in_ring sssr (fst nl) (fst mb))) (snd nl)) (m_adj g)).
+   flat_map (fun nl => map (fun mb => (fst nl, fst mb, bond_label sssr (fst nl) mb)) (snd nl)) (m_adj g)).
 
 (* ------------------------------------------------------------------------------------------------ *)
 (* SPECIFICATION: cycles, edge vectors over GF(2), the cycle-basis checker                             *)
@@ -423,3 +429,35 @@ Definition graph_eqb (a b : graph) : bool := ll_eqb (graph_norm a) (graph_norm b
 (* dict int -> list of ints with order *)
 Definition odict_eqb (a b : list (Z * list Z)) : bool :=
   list_eqb (pair_eqb Z.eqb (list_eqb Z.eqb)) a b.
+
+(* ------------------------------------------------------------------------------------------------ *)
+(* one-line correspondence cases (harness/checks/C06.py): compact molecule literal + one helper per compared piece *)
+
+(* carbon-like atom record: the ring models read only the adjacency *)
+Definition mkm (ats : list (Z * Z)) (adj : list (Z * list (Z * Z))) : mol :=
+  mkMol (map (fun e => (fst e, mkAtom (snd e) None 0 false None None)) ats)
+        (map (fun e => (fst e, map (fun mb => (fst mb, mkBond (snd mb) None)) (snd e))) adj).
+Definition sorted_vals (s : graph) : graph := map (fun e => (fst e, sort_z (snd e))) s.
+Definition c_nsc (m : mol) (e : graph) : bool := graph_eqb (graph_of_not_special m) e.
+Definition c_cc (g : graph) (e : pyres (list (list Z))) : bool := pyres_eqb setset_eqb (connected_components g) e.
+Definition c_rc (g : graph) (e : pyres Z) : bool := pyres_eqb Z.eqb (rings_count g) e.
+Definition c_skin (g : graph) (e : pyres graph) : bool :=
+  pyres_eqb odict_eqb (match skin_graph g with Ok s => Ok (sorted_vals s) | Err x => Err x end) e.
+(* atoms_rings: expected value given as {atom: [positions in sssr of its rings]} *)
+Definition c_ar (rs : list ring) (e : list (Z * list nat)) : bool :=
+  list_eqb (pair_eqb Z.eqb ll_eqb) (atoms_rings rs) (map (fun x => (fst x, map (fun k => nth k rs []) (snd x))) e).
+Definition c_ar_full (rs : list ring) (e : list (Z * list ring)) : bool :=
+  list_eqb (pair_eqb Z.eqb ll_eqb) (atoms_rings rs) e.
+Definition c_ars (rs : list ring) (e : graph) : bool := odict_eqb (sorted_vals (atoms_rings_sizes rs)) e.
+(* calc_labels: atoms in _bonds order as (number, in_ring, sorted ring_sizes) (abbreviated: (in_ring, sizes) when the
+   atom numbers are those of the molecule literal), directed bonds in _bonds order as their in_ring flags *)
+Definition c_lab (m : mol) (rs : list ring) (ea : list (Z * (bool * list Z))) (eb : list bool) : bool :=
+  let rl := ring_labels m rs in
+  list_eqb (pair_eqb Z.eqb (pair_eqb Bool.eqb (list_eqb Z.eqb)))
+           (map (fun x => (fst (fst x), (snd (fst x), sort_z (snd x)))) (fst rl)) ea &&
+  list_eqb Bool.eqb (map snd (snd rl)) eb.
+Definition c_ref (g : graph) (rs : list ring) : bool :=
+  is_cycle_basis g (mcb_ref g) && (total_size rs =? total_size (mcb_ref g)).
+Definition c_canon (r : list Z) (e : pyres (list Z)) : bool := pyres_eqb (list_eqb Z.eqb) (canonic_ring r) e.
+Definition c_sciss (r : list Z) (n m : Z) (e : pyres (list Z)) : bool := pyres_eqb (list_eqb Z.eqb) (ring_scissors r n m) e.
+Definition c_radj (r : list Z) (e : pyres (list (Z * list Z))) : bool := pyres_eqb odict_eqb (ring_adjacency r) e.
